@@ -72,7 +72,7 @@ Proof. intros H. now apply String.eqb_neq. Qed.
 Ltac mon_cbn :=
   cbn [existsb forallb tx_run tx_step ev_of fst snd meth_eqb meth_n rclass_eqb rclass_n fault_n Nat.eqb Nat.add andb orb negb
        is_tx_meth is_ok is_injr is_inj pkce_nf in_refresh_tx tolerated is_revoke is_refresh succeeded no_tokens o_err o_minted
-       err_obs ok_obs kinds_of String.eqb Ascii.eqb Bool.eqb app].
+       err_obs ok_obs kinds_of String.eqb Ascii.eqb Bool.eqb app panicked].
 
 Ltac serial_cases Hser :=
   match goal with
@@ -110,12 +110,12 @@ Ltac blk_flow_leaf Etx :=
       try (rewrite (Hpl Etx)); mon_cbn;
       rewrite ?andb_false_r, ?orb_false_r, ?andb_true_r; mon_cbn;
       finish_conj Etx
-  | _ <> "" /\ _ =>
+  | (_ \/ _) /\ _ =>
       let Herr := fresh "Herr" in let Hrb := fresh "Hrb" in let Hser := fresh "Hser" in
       destruct Hres as [Herr [Hrb Hser]];
       unfold flow_okp, flow_ok; fl_cbn; rewrite ?Hc, ?Hsn, ?Hcl, ?Hnow, ?Hlog; cbn [app];
       mon_unfold; mon_cbn; rewrite ?existsb_app, ?forallb_app, ?tx_run_app; mon_cbn;
-      rewrite ?Hwf, ?(eqb_nonempty _ Herr); mon_cbn;
+      rewrite ?Hwf; destruct Herr as [-> | ->]; mon_cbn;
       try (rewrite (Hpl Etx)); rewrite ?Etx in *; mon_cbn;
       try (specialize (Hser eq_refl)); serial_cases Hser; mon_cbn;
       rewrite ?andb_false_r, ?orb_false_r, ?andb_true_r; mon_cbn;
